@@ -811,7 +811,7 @@ func (g *xg) errorStmt() {
 
 func (g *xg) stmt(depth int) {
 	g.budget--
-	kinds := []string{"print", "print", "decl", "decl", "assign", "assign", "coll"}
+	kinds := []string{"print", "print", "decl", "decl", "assign", "assign", "coll", "boundary"}
 	if depth < 3 {
 		kinds = append(kinds, "if", "if", "loop", "loop", "switch")
 	}
@@ -834,6 +834,8 @@ func (g *xg) stmt(depth int) {
 		g.assignStmt()
 	case "coll":
 		g.collStmt()
+	case "boundary":
+		g.boundaryStmt()
 	case "if":
 		kw := []string{"if", "if", "unless"}[g.pick(3, "ifk")]
 		g.feat(kw)
@@ -862,6 +864,28 @@ func (g *xg) stmt(depth int) {
 	case "return":
 		g.feat("return")
 		g.emit("return %s if %s", g.intExpr(1), g.boolExpr(2))
+	}
+}
+
+// boundaryStmt compares two run-time integers that sit on a representation boundary (SmallInt / BigInt,
+// the int64 range) and differ by -1, 0 or 1, with every ordering operator, and walks a short range between them:
+// the typed integer fast paths of both back ends have a separate branch for each representation pair.
+func (g *xg) boundaryStmt() {
+	g.feat("int_boundary")
+	base := []string{"4611686018427387903", "9223372036854775807", "(-4611686018427387904)", "(-9223372036854775808)", "18446744073709551615", "0"}[g.pick(6, "bbase")]
+	a, b := g.fresh("bd"), g.fresh("bd")
+	g.emit("var %s = %s + %d", a, base, g.pick(3, "boff"))
+	g.emit("var %s = %s + %d", b, a, []int{0, 0, 1, -1}[g.pick(4, "bdelta")])
+	id := g.fresh("t")
+	g.emit(`println("%s #{%s < %s} #{%s <= %s} #{%s > %s} #{%s >= %s} #{%s == %s} #{%s <=> %s}")`, id, a, b, a, b, a, b, a, b, a, b, a, b)
+	if g.chance(2, "brange") {
+		g.feat("int_boundary_range")
+		i, n := g.fresh("i"), g.fresh("c")
+		g.emit("var %s = 0", n)
+		g.emit("for %s in %s%s(%s + 2)", i, a, []string{"...", "<..", "..<"}[g.pick(3, "brk")], a)
+		g.emit("%s += 1", n)
+		g.emit("end")
+		g.emit(`println("%s ${%s}")`, g.fresh("t"), n)
 	}
 }
 
